@@ -4,6 +4,7 @@ import (
 	"fmt"
 	"go/token"
 	"go/types"
+	"runtime"
 	"strings"
 
 	"gosmt/smt"
@@ -134,6 +135,16 @@ func (ex *Exec) ensureInit(pkg *ssa.Package) {
 	ex.inInit++
 	ex.callSSA(nil, token.NoPos, init, nil, nil)
 	ex.inInit--
+	// modelled globals keep their model value whatever the initialiser computed
+	for _, m := range pkg.Members {
+		if g, ok := m.(*ssa.Global); ok {
+			if mv, has := ex.modelGlobal(g); has {
+				cell := new(value)
+				*cell = mv
+				ex.globals[g] = cell
+			}
+		}
+	}
 	ex.lim.NoPanicCheck = savedNo
 }
 
@@ -332,6 +343,12 @@ func (ex *Exec) runBlock(fr *frame) {
 				fmt.Printf("      %s: %s\n", fr.fn.Name(), in)
 			}
 		}
+		if ex.inInit > 0 {
+			if ex.visitInstrTolerant(fr, blk.Instrs[i]) {
+				return
+			}
+			continue
+		}
 		if ex.visitInstr(fr, blk.Instrs[i]) {
 			return
 		}
@@ -512,7 +529,7 @@ func (ex *Exec) visitInstr(fr *frame, instr ssa.Instruction) bool {
 			if x == nil {
 				ex.oblige("nil", "index through nil array pointer", fr, instr.Pos(), b.False)
 			}
-			a := (*x).(array)
+			a := ex.asArray(fr, *x)
 			i := ex.boundedIndex(fr, instr.Pos(), idx, len(a))
 			fr.env[instr] = &a[i]
 		default:
@@ -698,4 +715,42 @@ func (ex *Exec) stackOf(fr *frame) string {
 		s += " < " + fr.fn.String()
 	}
 	return s
+}
+
+func (ex *Exec) asArray(fr *frame, v value) array {
+	a, ok := v.(array)
+	if !ok {
+		panic(ex.unsupported(fmt.Sprintf("array operation on %T%s", v, ex.stackOf(fr))))
+	}
+	return a
+}
+
+// visitInstrTolerant runs one instruction of a package initialiser: an operation on a value
+// that could not be computed (result of an unmodelled call) yields another opaque value instead
+// of stopping the initialiser; it only matters if a harness path later uses that value.
+func (ex *Exec) visitInstrTolerant(fr *frame, in ssa.Instruction) (left bool) {
+	defer func() {
+		if r := recover(); r != nil {
+			pe, ok := r.(pathEnd)
+			if !ok || pe.kind != "unsupported" {
+				if re, isRE := r.(runtime.Error); !isRE || !strings.Contains(re.Error(), "symex.opaqueV") {
+					panic(r)
+				}
+			}
+			if v, isVal := in.(ssa.Value); isVal {
+				if _, isIf := in.(*ssa.If); !isIf {
+					fr.env[v] = opaqueV{"init-time: " + pe.msg}
+					left = false
+					return
+				}
+			}
+			switch in.(type) {
+			case *ssa.Store, *ssa.MapUpdate, *ssa.DebugRef:
+				left = false
+				return
+			}
+			panic(r)
+		}
+	}()
+	return ex.visitInstr(fr, in)
 }
